@@ -38,9 +38,10 @@ CFG = {
          'event through the hooks: all 256 wires present / two pad hits of bit-identical amplitude in a time bin of a '
          'selected column / a pad hit of a selected column with middle^2/(first*last) - 1 < 3.4e-10). Each class has one '
          'documented failure prefix (fails rotation / fails mirror / fails mirror); on such lines a panic prints '
-         '`fails panic:<message>`, a full-ring event must still satisfy the measured far-from-seam relation (more than '
-         '5 wires from both seams: amplitudes above 1e-3 of the largest agree to 1e-3 of it; more than 24 wires: above '
-         '1e-6 agree to 1e-9 with bit-identical z and pad amplitude; else `fails far-from-seam`), a tie event must keep '
+         '`fails panic:<message>`, a full-ring event must still satisfy the measured far-from-seam relation (wire '
+         'amplitudes relative to the largest of the event; more than 5 wires from both seams: above 2e-2 agree to 2e-2; '
+         'more than 12: above 1e-4 agree to 1e-4; more than 24: above 1e-6 agree to 1e-9 with bit-identical z and pad '
+         'amplitude; else `fails far-from-seam`), a tie event must keep '
          'the multisets of (wire, t, wire amplitude), (t, pad amplitude) and, when no pad hit is left unpaired, '
          '(t, pad amplitude, |z|), every z being a mirrored pad hit of the event (else `fails pairing-lost`), an '
          'ill-conditioned event must keep everything but z, and z within 6 mm (else `fails avalanche-count` / '
